@@ -216,14 +216,32 @@ def inline_statement_helpers(fn: ast.FunctionDef, helpers: Dict[str, ast.Functio
         out: List[ast.stmt] = []
         for st in stmts:
             c = st.value if isinstance(st, ast.Expr) and isinstance(st.value, ast.Call) else None
-            if c is not None and d > 0 and isinstance(c.func, ast.Attribute) and isinstance(c.func.value, ast.Name) and c.func.value.id == "self" and c.func.attr in helpers and not c.keywords:
+            if c is not None and d > 0 and isinstance(c.func, ast.Attribute) and isinstance(c.func.value, ast.Name) and c.func.value.id == "self" and c.func.attr in helpers and all(k_.arg is not None for k_ in c.keywords):
                 h = helpers[c.func.attr]
                 params = [a.arg for a in h.args.args[1:]]
-                simple = all(isinstance(a, (ast.Name, ast.Constant, ast.Subscript, ast.Attribute)) for a in c.args)
                 assigned = {x.id for n in ast.walk(h) for x in ast.walk(n) if isinstance(x, ast.Name) and isinstance(x.ctx, ast.Store)}
                 # trailing parameters not passed take their (constant) defaults
                 call_args = list(c.args)
                 dfl = h.args.defaults
+                # keyword arguments are bound by the helper's signature
+                if c.keywords:
+                    by_kw = {k_.arg: k_.value for k_ in c.keywords}
+                    rest = params[len(call_args):]
+                    n_dfl_rest = dict(zip(params[len(params) - len(dfl):], dfl)) if dfl else {}
+                    bound: List[ast.expr] = []
+                    ok_kw = set(by_kw) <= set(rest)
+                    for prm_ in rest:
+                        if prm_ in by_kw:
+                            bound.append(by_kw[prm_])
+                        elif prm_ in n_dfl_rest and isinstance(n_dfl_rest[prm_], ast.Constant):
+                            bound.append(copy.deepcopy(n_dfl_rest[prm_]))
+                        else:
+                            ok_kw = False
+                    if ok_kw:
+                        call_args = call_args + bound
+                    else:
+                        call_args = []
+                simple = all(isinstance(a, (ast.Name, ast.Constant, ast.Subscript, ast.Attribute)) for a in call_args)
                 if len(call_args) < len(params) and len(params) - len(call_args) <= len(dfl):
                     need = len(params) - len(call_args)
                     tail = dfl[len(dfl) - need :] if need else []
